@@ -100,7 +100,9 @@ def main():
             sid, ', '.join(os.path.basename(f) for f in files), (meta.get('needs') or '').split('. ')[0][:170].replace('|', '/'),
             ('34 passed + the known collection error (= baseline)' if (suite.get('summary') or '').startswith('34 passed, 2 warnings, 1 error')
              else (suite.get('summary') or '?').replace('|', '/')[:60]),
-            (first or ('**MISSED**' if res else 'not run')) + (' (on the tree before fix 8d0f8ea; now ineffective, see -rb)' if meta.get('status') else ''),
+            ('caught on the tree before repo fix 8d0f8ea (C02.redefine / C04.redefine / C15.closed_form); the fix made the change '
+             'ineffective - its demonstration now passes with the patch applied - see the -rb variant') if meta.get('status')
+            else (first or ('**MISSED**' if res else 'not run')),
             dets,
             (FIRST.get(sid) or ('re-based variant (mine) of %s' % sid[:-3] if sid.endswith('-rb') else 'caught as the checks stood')).replace('|', '/')))
     table = ['| change | file | needs (first sentence of meta.json) | repo suite with the patch | caught by (first violation line) | seeds caught (detect.json) | first run |',
